@@ -72,6 +72,7 @@ func vfRunQueueSeq2(prefill int, ops []vfQOp) (string, string) {
 	ref := &vfRefQ{}
 	scratch := &UnAckedStz{}
 	lastPushedId := 0
+	var kept []vfKept
 	step := func(i int, op vfQOp) (string, string) {
 		before := append([]string(nil), ref.items...)
 		switch op.Op {
@@ -122,9 +123,13 @@ func vfRunQueueSeq2(prefill int, ops []vfQOp) (string, string) {
 				ref.items = ref.items[1:]
 			}
 		case "popn":
-			got, bad := vfQueueablesToStrings(q.PopN(op.K))
+			res := q.PopN(op.K)
+			got, bad := vfQueueablesToStrings(res)
 			if bad != "" {
 				return "popn:type", bad
+			}
+			if len(res) <= 40 {
+				kept = append(kept, vfKept{i, "popn", res, got})
 			}
 			var want []string
 			if op.K > 0 {
@@ -151,9 +156,13 @@ func vfRunQueueSeq2(prefill int, ops []vfQOp) (string, string) {
 				}
 			}
 		case "peekn":
-			got, bad := vfQueueablesToStrings(q.PeekN(op.K))
+			res := q.PeekN(op.K)
+			got, bad := vfQueueablesToStrings(res)
 			if bad != "" {
 				return "peekn:type", bad
+			}
+			if len(res) <= 40 {
+				kept = append(kept, vfKept{i, "peekn", res, got})
 			}
 			var want []string
 			if op.K > 0 {
@@ -169,6 +178,17 @@ func vfRunQueueSeq2(prefill int, ops []vfQOp) (string, string) {
 		case "empty":
 			if q.Empty() != (len(ref.items) == 0) {
 				return "empty:wrong", fmt.Sprintf("step %d Empty()=%v, reference length %d", i, q.Empty(), len(ref.items))
+			}
+		}
+		// what an earlier pop-n / peek-n returned is still what it returned (a caller may hold on to a result: the
+		// retransmission code does, while it sends)
+		if len(kept) > 4 {
+			kept = kept[len(kept)-4:]
+		}
+		for _, k := range kept {
+			now, bad := vfQueueablesToStrings(k.res)
+			if bad != "" || !vfEqStrs(now, k.was) {
+				return k.op + ":result-changed-by-later-call", fmt.Sprintf("step %d %s(%d): the slice returned by %s at step %d read %q then and reads %q now %s", i, op.Op, op.K, k.op, k.step, k.was, now, bad)
 			}
 		}
 		// after every step: same contents, peeks did not modify, ids strictly increasing
@@ -214,6 +234,14 @@ func vfRunQueueSeq2(prefill int, ops []vfQOp) (string, string) {
 	return "", ""
 }
 
+// vfKept: a result of PopN/PeekN that the caller still holds, with what it contained when it was returned
+type vfKept struct {
+	step int
+	op   string
+	res  []Queueable
+	was  []string
+}
+
 type vfC17Case struct {
 	Prefill int     `json:"prefill"`
 	Ops     []vfQOp `json:"ops"`
@@ -246,7 +274,7 @@ func TestVf_C17(t *testing.T) {
 		if r.Intn(3) == 0 {
 			cs.Prefill = r.Intn(12)
 		}
-		if c%50 == 7 {
+		if c%200 == 7 {
 			cs.Prefill = 200 + r.Intn(2000) // a long backlog (a session that was not acknowledged for a while)
 		}
 		size := cs.Prefill
